@@ -120,7 +120,7 @@ def base_effect(self, request_args, old, result):
 
 
 # ---- CompositeAuth ---------------------------------------------------------------------------------
-def fold_effects(plugins, n, args):
+def fold_effects(plugins: list, n: int, args: dict) -> dict:
     """args after the first n plugins, applied left to right (composition order)."""
     if n <= 0:
         return args
